@@ -190,6 +190,8 @@ class BaseParser(xml.sax.ContentHandler):
             return self._registry.get(dtname)
         except ValueError as e:
             self.error(e.args[0])
+        except ImportError as e:
+            self.error("unloadable datatype name: %r (%s)" % (dtname, e))
 
     def get_sect_typeinfo(self, attrs, base=None):
         keytype = self.get_datatype(attrs, "keytype", "basic-key", base)
